@@ -100,7 +100,9 @@ def gen_case(rng, rkind, pt_sub, sh_sub):
     return {"rkind": rkind, "pt_sub": pt_sub, "sh_sub": sh_sub, "points": pts, "shapes": shapes,
             "left_index": lik, "right_index": rik, "clash": clash, "how": how,
             "suffixes": suffixes, "seed": int(rng.integers(2 ** 31)),
-            "same_geom_name": bool(rng.random() < 0.3)}
+            "same_geom_name": bool(rng.random() < 0.3),
+            "reserved": ([["L", "_key_left"], ["R", "_key_right"], ["L", "_key_right"], ["R", "_key_left"]]
+                         [int(rng.integers(4))] if rng.random() < 0.06 else None)}
 
 
 def make_idx(kind, n, seed, name):
@@ -128,6 +130,9 @@ def build_frames(case):
     rgeom = "geometry" if case["same_geom_name"] else "shape"
     ldata = {"a": np.arange(nl) + 10, lgeom: pa_, "ltxt": [f"L{i}" for i in range(nl)]}
     rdata = {"w": np.arange(nr) * 1.5, rgeom: sa, "rtxt": [f"R{i}" for i in range(nr)]}
+    if case.get("reserved"):
+        (ldata if case["reserved"][0] == "L" else rdata)[case["reserved"][1]] = \
+            np.arange(nl if case["reserved"][0] == "L" else nr) + 50
     if case["clash"]:
         ldata["val"] = np.arange(nl) * 2
         rdata["val"] = np.arange(nr) + 100
@@ -219,6 +224,9 @@ def check_case(ctx, case):
             elif c:
                 pairs.append((i, j))
     ok, got, tb = ctx.guarded(lambda: sjoin(left, right, how=how, lsuffix=ls, rsuffix=rs))
+    if not ok and case.get("reserved") and isinstance(got, ValueError) and "_key_" in str(got):
+        ctx.count("rejected_reserved_column_name")      # refusing loudly is fine
+        return
     if not ok:
         return rec_raise("call", got, tb)
     ctx.count("joins_checked")
